@@ -750,8 +750,11 @@ def run_scenario(scen, want_model=True, want_sample=False):
     t0 = time.time()
     with mpsim.Sim() as sim:
         w = World(sim, scen['pool'], res, want_sample)
+        quiet = scen.get('quiet', 0)    # race corpus: its long common set-up is collected once, at its end
         for i, st in enumerate(scen['steps']):
             w.step(i, st)
+            if i + 1 < quiet and st[0] != 'race':
+                continue
             age_files(sim.dir, scen.get('age'), t0)
             w.collect_point(i, want_model)
     return res
@@ -902,7 +905,7 @@ def race_corpus():
                 k += 1
                 tail = [['race', sub, via, place], ['inc', 11, 0, ['default'], B(1.0)], ['reuse', sub[0]],
                         ['set', sub[0], 3, [], B(7.0), B(50.0)], ['race', [sub[0], 11], via, places[(k + 3) % len(places)]]]
-                out.append({'pool': pool, 'steps': setup + tail})
+                out.append({'pool': pool, 'steps': setup + tail, 'quiet': len(setup)})
     # the demo shape: three workers, the doomed worker's file met first, everything else after it
     pool = [mdef('counter', 'jobs', ['queue']), mdef('gauge', 'inflight', (), 'livesum'), mdef('summary', 'job_seconds')]
     for place in ('first', 'middle', 'last'):
@@ -1321,7 +1324,9 @@ def probe_label_named_pid(ctx):
 
 # ================================================================================================== driver of the check
 def truncate(scen, i):
-    return dict(scen, steps=scen['steps'][:i + 1])
+    case = dict(scen, steps=scen['steps'][:i + 1])
+    case.pop('quiet', None)     # a reported case collects after every step
+    return case
 
 
 def shrink_failure(scen, sig):
